@@ -126,7 +126,17 @@ func checkC09(sc *Scenario, t *Truth) []Violation {
 			}
 			switch st.Status {
 			case "Completed":
-				if last != nil && last.ExitSeq >= 0 && last.ExitSeq < sn.Seq && st.ExitCode != last.Code {
+				failedLater := false
+				for _, fs := range t.ExecFails[name] {
+					if last != nil && fs > last.ExecSeq && fs < sn.Seq {
+						failedLater = true // a later launch failed: that is the "last command" now
+					}
+				}
+				if failedLater {
+					if st.ExitCode == 0 {
+						add("zero-exit-code-after-failed-launch", "", fmt.Sprintf("%s: its last launch failed but exit code 0 is reported", name))
+					}
+				} else if last != nil && last.ExitSeq >= 0 && last.ExitSeq < sn.Seq && st.ExitCode != last.Code {
 					add("exit-code-mismatch", "", fmt.Sprintf("%s is Completed with reported exit code %d but its last command exited with %d", name, st.ExitCode, last.Code))
 				}
 			case "Skipped", "Error":
